@@ -107,14 +107,14 @@ claim("C13", "E7+E4+E5",
       "static analysis: context-sensitive forward dataflow over MIR of the recursive-descent parser (abstract token-kind sets evaluated from the TokenSet constants, path-sensitive on eat/expect/matches results, closures and fn items bound per call site; greatest-fixpoint summaries) deciding per-loop token consumption and feasibility of assertion failures; plus guard dominance / data-flow of the include-validation result, field-write ownership, must-call pairing and a diagnostic-range provenance rule",
       "Static decision of these clauses of C13: (G1) TERMINATION of the parser proper (parser.rs, grammar/*): every trip round each of its 38 loops "
       "consumes at least one non-EOF lexeme (4 are std-iterator loops, one path is an audited exception with a re-checked witness), so no error-recovery "
-      "path can spin; this found two real hangs (`@a = [; - b];`, `anchorDef (wght=200:5 longident) 5 foo;`), both repaired. (G2) NO PANIC in the same "
+      "path can spin, and the same engine proves the 8 loops of the contextual-rule rewriter (token_tree::rewrite); this found two real hangs (`@a = [; - b];`, `anchorDef (wght=200:5 longident) 5 foo;`), both repaired. (G2) NO PANIC in the same "
       "modules: of 118 assertion / unwrap / index / overflow sites, 67 are infeasible given the token facts on every path reaching them, 10 are "
       "constant-index bounds checks, the other 41 are listed per (function, kind, count) with the reason they cannot fire - a new site is a violation; "
       "auditing that list found two real panics (`table mark { } mark;`, `${a-12.5}`), both repaired. (X6) cyclic or too-deep includes are rejected "
       "before the recursive tree assembly and the rejected edges are honoured by it. (L1) a necessary condition of losslessness: a single owner of the "
       "source cursor, the lexer pulled only by Parser::advance, every advance paired with AstSink::token. (L3) a necessary condition of 'diagnostics "
       "point inside the source on char boundaries': ranges handed to diagnostics are token/node ranges, not byte arithmetic (the two `pos..pos+1` helpers "
-      "that could point one byte past the end or inside a multi-byte character were found by this rule and repaired). NOT decided: the lexer's and the contextual-rule rewriter's own loops (census "
+      "that could point one byte past the end or inside a multi-byte character were found by this rule and repaired). NOT decided: the lexer's loops (census "
       "with read reasons only, under C15/X10), panic-freedom outside parser.rs/grammar (lexer, token tree, validation), the truth of the audited "
       "reasons (they were read, not proved), exact equality of concatenated token texts with the input.",
       "Trusted: rustc MIR and const evaluation (TokenSet values); the primitive table in tables/e7_tables.json (Parser::do_bump/advance consume one "
